@@ -1,0 +1,19 @@
+//go:build verif
+
+package render
+
+import "io"
+
+// VerifTrimWriter exposes the unexported trimWriter to the verification harness in /verif.
+// It exists only in builds with the `verif` tag.
+type VerifTrimWriter struct{ tw trimWriter }
+
+// NewVerifTrimWriter wraps w in a trim writer.
+func NewVerifTrimWriter(w io.Writer) *VerifTrimWriter {
+	return &VerifTrimWriter{trimWriter{w: w}}
+}
+
+func (v *VerifTrimWriter) Write(b []byte) (int, error) { return v.tw.Write(b) }
+func (v *VerifTrimWriter) TrimLeft() error             { return v.tw.TrimLeft() }
+func (v *VerifTrimWriter) TrimRight()                  { v.tw.TrimRight() }
+func (v *VerifTrimWriter) Flush() (int, error)         { return v.tw.Flush() }
